@@ -51,9 +51,9 @@ PROPS = {
     "C17": dict(modules=["PolytuneModel.Thm.C14", "PolytuneModel.Thm.C17", "PolytuneModel.Thm.C17net"], theorems=["PolytuneModel.Sem.C17_bound", "PolytuneModel.Sem.C17_all_released", "PolytuneModel.Server.C17_n2_failure_ok", "PolytuneModel.Server.C17_n2_failures_explored", "PolytuneModel.Server.C17_cex_run_fail_net", "PolytuneModel.Server.C17_cex_consts_fail_net", "PolytuneModel.Server.C17_cex_run_fail_no_output"], server="C17", cases=dict(quick=16, thorough=120), rule="deterministic corpus (RPC kind x leader x destinations) then seeded: first validate / run / consts RPC fails, the CALLER must end, be notified and give its permit back; batches of 2..8 policies sharing the hosts' semaphores with concurrency 1..3: permit holders per host never exceed the concurrency, budget restored; distinct by (rpc, n, leader, destinations) / batch shape"),
     "C18": dict(modules=["PolytuneModel.Thm.C18", "PolytuneModel.Thm.Sites", "PolytuneModel.Thm.C18gen"], theorems=["PolytuneModel.Gen_validateArgs_eq", "PolytuneModel.C18_gen_reject_peval", "PolytuneModel.C18_gen_reject_pout_repeats", "PolytuneModel.C18_gen_accepted_ok", "PolytuneModel.C18_guard_sites_present", "PolytuneModel.validateArgs_ok_iff", "PolytuneModel.C18_reject_own_index", "PolytuneModel.C18_reject_peval", "PolytuneModel.C18_reject_pout_index", "PolytuneModel.C18_reject_input_len", "PolytuneModel.C18_reject_invalid_circuit", "PolytuneModel.C18_reject_empty_pout", "PolytuneModel.C18_reject_pout_repeats", "PolytuneModel.C18_accepted_pout_ok", "PolytuneModel.C18_input_after_gate_rejected"], drive="C18", cases=dict(quick=60, thorough=600),
                 rule="one invalid argument per single-party run (10 classes), repeated output indices (all parties), validate-ok-but-not-wf circuits (5 classes); distinct by (class, circuit, indices)"),
-    "C19": dict(modules=["PolytuneModel.Thm.C19", "PolytuneModel.Thm.GenArith"], theorems=["PolytuneModel.Buf.C19_refines", "PolytuneModel.Buf.C19_from_new", "PolytuneModel.chunksOf_flatten", "PolytuneModel.Gen_chunkSizeIter_eq"], drive="C19", also=["C19m"], cases=dict(quick=400, thorough=6000),
+    "C19": dict(modules=["PolytuneModel.Thm.C19", "PolytuneModel.Thm.GenArith", "PolytuneModel.Thm.C19mpc"], theorems=["PolytuneModel.C19_mpc_use", "PolytuneModel.initLoop_spec", "PolytuneModel.chunkSizeIter_regular", "PolytuneModel.Buf.C19_refines", "PolytuneModel.Buf.C19_from_new", "PolytuneModel.chunksOf_flatten", "PolytuneModel.Gen_chunkSizeIter_eq"], drive="C19", also=["C19m"], cases=dict(quick=400, thorough=6000),
                 rule="seeded op sequences (non-empty appends, partial/full item reads, chunked reads, len<=12) on both real variants and the model; non-trivial = a read after an append; distinct by op sequence"),
-    "C20": dict(modules=["PolytuneModel.Thm.C20", "PolytuneModel.Thm.C20spec", "PolytuneModel.Thm.C20holes", "PolytuneModel.Thm.C20final"], theorems=["PolytuneModel.Holes.C20_clmul64_holes", "PolytuneModel.C20_clmul128_portable_exact", "PolytuneModel.C20_clmul128_portable_eq_spec", "PolytuneModel.C20_simd_eq_portable", "PolytuneModel.C20_clmul128_exact", "PolytuneModel.C20_pclmul128_exact", "PolytuneModel.clmul128Spec_eq_M", "PolytuneModel.C20_scalar_eq_simd", "PolytuneModel.karatsuba_mid"], drive="C20", cases=dict(quick=30, thorough=60), rule="transpose shapes 128 x c and random (single-bit, all-ones, random; unaligned), clmul basis / sparse / dense / random pairs, CR / TCCR hashes, AesRng fills of every sampled length; both dispatching and portable paths vs the Lean definitions; distinct by input"),
+    "C20": dict(modules=["PolytuneModel.Thm.C20", "PolytuneModel.Thm.C20spec", "PolytuneModel.Thm.C20holes", "PolytuneModel.Thm.C20final", "PolytuneModel.Thm.C20ctr"], theorems=["PolytuneModel.AesRng.C20_ctr_single_call", "PolytuneModel.Holes.C20_clmul64_holes", "PolytuneModel.C20_clmul128_portable_exact", "PolytuneModel.C20_clmul128_portable_eq_spec", "PolytuneModel.C20_simd_eq_portable", "PolytuneModel.C20_clmul128_exact", "PolytuneModel.C20_pclmul128_exact", "PolytuneModel.clmul128Spec_eq_M", "PolytuneModel.C20_scalar_eq_simd", "PolytuneModel.karatsuba_mid"], drive="C20", cases=dict(quick=30, thorough=60), rule="transpose shapes 128 x c and random (single-bit, all-ones, random; unaligned), clmul basis / sparse / dense / random pairs, CR / TCCR hashes, AesRng fills of every sampled length; both dispatching and portable paths vs the Lean definitions; distinct by input"),
 }
 
 def sh(cmd, cwd=None, timeout=3600, env=None):
